@@ -29,6 +29,11 @@ def in_fragment(case):
         # a module whose name is no Rust identifier (`c.v1`) cannot be declared by a `mod` item mirroring the tree
         if any(not re.fullmatch(r"(r#)?[A-Za-z_][A-Za-z0-9_]*", seg) for seg in m["path"]):
             return False
+    # two modules whose paths differ only by a raw-identifier prefix (`m`, `r#m`) cannot both be declared in one crate:
+    # the tree has no mirror to type-check
+    plain_paths = [tuple(seg[2:] if seg.startswith("r#") else seg for seg in m["path"]) for m in case["input"]["mods"]]
+    if len(set(plain_paths)) != len(plain_paths):
+        return False
     for m in case["input"]["mods"]:
         for d in m["defs"]:
             # a singleton at address 0 is a null dereference (rustc's deref_nullptr lint refuses it)
